@@ -39,6 +39,7 @@ AUTOMUT_TRIAGE = [
 
 def run(chk):
     repo = chk.repo
+    cm.schema(chk, repo, "C19")
     d1_refusals(chk, repo)
     d2_orientation_only(chk, repo)
     d3_tables(chk, repo)
@@ -46,6 +47,7 @@ def run(chk):
     d5_bloch_points(chk, repo)
     d6_demag(chk, repo)
     d7_completions(chk, repo)
+    d8_newell(chk, repo)
     chk.trust("np.einsum('...j,...j->...') is the per-cell dot product; np.arccos o np.clip[-1,1] lies in [0, pi]; "
               "itertools.product([0,1], repeat=6) enumerates the 64 corner combinations")
     chk.assume("integer charges, invariance under vector rotation, trace -1 of the Fourier-space tensor, agreement of the two "
@@ -684,3 +686,65 @@ def d7_completions(chk, repo):
                     okh = bool(c and c[0] in ("Field.ifftn", ".ifftn")) and is_const(h.ctx, d_[1].get("nvdim", h.ctx.const(0)), 3)
     chk.ob(T + "demag_field::inverse-transform", okh, "C19.D7",
            "the field is built (nvdim=3) from the INVERSE transform of the stacked products", h.f, r3)
+
+
+# ------------------------------------------------------------------ D8
+NEWELL_F = ("y / 2 * (z**2 - x**2) * np.arcsinh(y / np.sqrt(x**2 + z**2)) + z / 2 * (y**2 - x**2) * np.arcsinh(z / np.sqrt(x**2 + y**2))"
+            " - x * y * z * np.arctan(y * z / (x * np.sqrt(x**2 + y**2 + z**2)))"
+            " + 1 / 6 * (2 * x**2 - y**2 - z**2) * np.sqrt(x**2 + y**2 + z**2)")
+NEWELL_G = ("x * y * z * np.arcsinh(z / np.sqrt(x**2 + y**2)) + y / 6 * (3 * z**2 - y**2) * np.arcsinh(x / np.sqrt(y**2 + z**2))"
+            " + x / 6 * (3 * z**2 - x**2) * np.arcsinh(y / np.sqrt(x**2 + z**2))"
+            " - z**3 / 6 * np.arctan(x * y / (z * np.sqrt(x**2 + y**2 + z**2)))"
+            " - z * y**2 / 2 * np.arctan(x * z / (y * np.sqrt(x**2 + y**2 + z**2)))"
+            " - z * x**2 / 2 * np.arctan(y * z / (x * np.sqrt(x**2 + y**2 + z**2)))"
+            " - x * y * np.sqrt(x**2 + y**2 + z**2) / 3")
+
+
+def _plain_formula(v, t):
+    """the formula a guarded numpy expression computes where nothing is guarded: np.divide(a, b, out=zeros, where=c) is a / b,
+    abs(u) is u (Newell's f and g are even in the coordinates they are taken the modulus of: y*arcsinh(y/r) = |y|*arcsinh(|y|/r))"""
+    ctx = v.ctx
+    for _ in range(12):
+        mapping = {}
+        for a in sorted(ctx.all_atoms(t)):
+            hd, ar = ctx.atoms[a]
+            inner = set()
+            for x in ar:
+                inner |= ctx.all_atoms(x)
+            if any(ctx.atoms[i][0][0] == "call" and ctx.atoms[i][0][1] in ("np.abs", "np.divide") for i in inner):
+                continue            # innermost first
+            if hd[0] == "call" and hd[1] == "np.abs" and len(ar) == 1:
+                mapping[a] = ar[0]
+            elif hd[0] == "call" and hd[1] == "np.divide" and len(ar) >= 2 and hd[2] == 2:
+                mapping[a] = r_div(ar[0], ar[1])
+        if not mapping:
+            break
+        t = ctx.subst(t, mapping)
+    return t
+
+
+def d8_newell(chk, repo):
+    chk.rule("C19.D8", "the demagnetisation tensor is built from Newell's auxiliary functions f (diagonal) and g (off-diagonal) "
+                       "[Newell, Williams, Dunlop 1993; Albert et al. 2015]: the two helpers compute exactly these formulas "
+                       "(compared as rational expressions over sqrt / arcsinh / arctan, zero-guards and moduli removed), and each "
+                       "tensor element uses the one that belongs to it")
+    for q, text in (("_f", NEWELL_F), ("_g", NEWELL_G)):
+        v = FV(repo, T + q)
+        rets = [r for r in v.returns() if r.value is not None]
+        chk.require(len(rets) == 1, f"{q}: expected a single return")
+        got = _plain_formula(v, v.ev.term(rets[0].value, at=rets[0]))
+        want = _plain_formula(v, v.spec(text))
+        chk.ob(f"tools.tools.{q}::newell-formula", v.eq(got, want), "C19.D8",
+               f"{q} computes {v.show(got)[:300]}; expected Newell's {'f' if q == '_f' else 'g'}", v.f, rets[0])
+    # which helper each element uses: f for xx, yy, zz - g for xy, xz, yz (order of the returned tuple)
+    inner = [f for qq, f in repo.funcs.items() if qq.startswith(T + "_N.") and f.parent is not None]
+    chk.require(inner, "_N: inner function vanished")
+    w = FV(repo, inner[0].qual)
+    rets = [r for r in w.returns() if r.value is not None]
+    names = []
+    if rets and isinstance(rets[0].value, ast.Tuple):
+        for e in rets[0].value.elts:
+            names.append(ast.unparse(e.args[-1]) if isinstance(e, ast.Call) and e.args else "?")
+    chk.ob("tools.tools._N::element-functions", names == ["_f", "_f", "_f", "_g", "_g", "_g"], "C19.D8",
+           f"elements are computed with {names}; expected f for the three diagonal and g for the three off-diagonal elements",
+           w.f, rets[0] if rets else None)
